@@ -4,12 +4,14 @@ import (
 	"flag"
 	"fmt"
 	"strings"
+	"time"
 
 	"github.com/bronlabs/bron-crypto/pkg/proofs/sigma/compiler"
 	"github.com/bronlabs/bron-crypto/pkg/proofs/sigma/compiler/fiatshamir"
 	"github.com/bronlabs/bron-crypto/pkg/proofs/sigma/compiler/fischlin"
 	"github.com/bronlabs/bron-crypto/pkg/proofs/sigma/compiler/randfischlin"
 
+	"verif/harness/proto"
 	"verif/harness/tr"
 )
 
@@ -59,6 +61,9 @@ func Main(args []string) int {
 		}
 	}
 	checkModels()
+	// a DKLs23 round among three parties takes seconds on a free machine and minutes on a loaded one; a timeout is reported by the
+	// check as a machinery failure, never as a verdict
+	proto.RoundTimeout = 30 * time.Minute
 	w = tr.NewW(*out)
 	defer w.Close()
 	w.Emit(map[string]any{"a": "hdr", "q": 5, "seed": seed, "mode": *mode, "tier": *tier})
